@@ -1,5 +1,6 @@
 """C15 — client transports deliver each answer to its own request, exactly once
-(spec/ClientStream.tla, spec/ClientDgram.tla, spec/ClientCompose.tla, spec/ClientMsg.tla)."""
+(spec/ClientStream.tla, spec/ClientDgram.tla, spec/ClientDgramPar.tla, spec/ClientCompose.tla,
+spec/ClientConfig.tla, spec/ClientMsg.tla)."""
 import json
 import os
 
@@ -21,9 +22,9 @@ DEV = "D_stream_response_timeout_ignored"
 
 META = {
     "category": "model_checking",
-    "text": "TLC explores the stream transport (one action per select! arm of Transport::run, the slot table with ID = slot index, timers, an adversarial peer that may send any message of an alphabet at any time, end the stream or stop reading) and the datagram transport (attempts, random IDs, receive loop, retries) and checks OwnAnswer, AtMostOnce, NoCross, SlotTableSound, NothingLost, the timer/retry budget and completion (liveness under fairness of the task and the clock). Every transition of the explored macro-step state graphs is replayed into the real stream::Connection/Transport and dgram::Connection over in-memory sockets on a paused clock, comparing requests written and the outcome of every get_response() after every step; recorded runs with 50 concurrent requests against a seeded hostile peer are validated by TLC against the specification with the invariants evaluated at every step.",
-    "note": "Trusted: TLC, the transcription in ClientStream.tla/ClientDgram.tla, the harness (in-memory sockets, interposed CLOCK_MONOTONIC so that std::time::Instant follows the paused tokio clock). Errors are compared as a class, not by value. ClientCompose.tla models multi_stream (connect phase, close, back-off, re-issue; completion no later than the response timeout after submission) and dgram_stream (TCP iff TC, the truncated answer is never delivered) over abstract stream connections; its macro-step graph is checked by TLC and replayed into the real multi_stream / dgram_stream over a mock connector. The redundant / load_balancer leg (upstream order and probe timer left open, burst limits exact) is model-checked and bound by validating recorded runs of the real balancers over scripted upstreams (0..3 upstreams, all result kinds, burst limits; a panicking request future is an observation no rule accepts). Zone transfers on the stream transport (SubmitMulti, check_stream transcribed, re-insert at the same ID) are modelled and bound (replay and recorded traces). The peer's question is a triple (name, type, class) varied one component at a time, plus letter case and QDCOUNT 0/2. Not covered: response-time estimation / fairness of the balancers, two multi_stream requests whose back-offs end in the same tick (order is random in the code), how many octets a stalled write has taken (stalled and short writes themselves are covered: a second request arriving while the first is half written), more than 65535/2 outstanding requests, real sockets/TLS. demux_reply restarts the response timer for every message, also for unknown IDs: bounded in the model (MaxFrames); see report. Open finding D_stream_response_timeout_ignored: the configured response timeout is never in force for ordinary requests (19 s default is used).",
-    "technique": "TLA+ specs (ClientStream.tla, ClientDgram.tla) + TLC exhaustive (safety, liveness); spec->impl behaviour replay on a virtual clock; impl->spec trace validation",
+    "text": "TLC explores the stream transport (one action per select! arm of Transport::run, the slot table with ID = slot index, timers, an adversarial peer that may send any message of an alphabet at any time, end the stream or stop reading) and the datagram transport (attempts, random IDs, receive loop, retries) and checks OwnAnswer, AtMostOnce, NoCross, SlotTableSound, NothingLost, the timer/retry budget and completion (liveness under fairness of the task and the clock). Every transition of the explored macro-step state graphs is replayed into the real stream::Connection/Transport and dgram::Connection over in-memory sockets on a paused clock, comparing requests written and the outcome of every get_response() after every step; recorded runs with 50 concurrent requests against a seeded hostile peer are validated by TLC against the specification with the invariants evaluated at every step. The budgets are the configured ones: ClientConfig.tla models every public configuration setter of dgram, stream, multi_stream, dgram_stream, redundant and load_balancer (documented ranges and defaults, routes new / default / from / from_parts / ..._mut / set_... / Connection::new) as configuration scripts; the model constants of the transports are what a script leaves in force, TLC checks the operational definitions against the declarative reading (asked for, capped to the range; never asked: the default) and generates, per setter, values at / just inside / just outside both ends of its range, which are replayed as getter sequences on the real objects and as loss scenarios on the running transports (dgram: 1 + max_retries datagrams read_timeout apart, OPT payload size on the wire, receive buffer offered to the socket, max_parallel sockets open at once under bursts of 1002 requests; stream: response / streaming / idle timeouts running out on clocks of 10 s, 70 s and 600 s ticks; multi_stream and dgram_stream: completion no later than the configured response timeout, the stream connections underneath giving up / going idle after the stream::Config part; load_balancer: ConnConfig scripts in the recorded runs).",
+    "note": "Trusted: TLC, the transcription in ClientStream.tla/ClientDgram.tla, the harness (in-memory sockets, interposed CLOCK_MONOTONIC so that std::time::Instant follows the paused tokio clock). Errors are compared as a class, not by value. ClientCompose.tla models multi_stream (connect phase, close, back-off, re-issue; completion no later than the response timeout after submission) and dgram_stream (TCP iff TC, the truncated answer is never delivered) over abstract stream connections; its macro-step graph is checked by TLC and replayed into the real multi_stream / dgram_stream over a mock connector. The redundant / load_balancer leg (upstream order and probe timer left open, burst limits exact) is model-checked and bound by validating recorded runs of the real balancers over scripted upstreams (0..3 upstreams, all result kinds, burst limits; a panicking request future is an observation no rule accepts). Zone transfers on the stream transport (SubmitMulti, check_stream transcribed, re-insert at the same ID) are modelled and bound (replay and recorded traces). The peer's question is a triple (name, type, class) varied one component at a time, plus letter case and QDCOUNT 0/2. Not covered: response-time estimation / fairness of the balancers, two multi_stream requests whose back-offs end in the same tick (order is random in the code), how many octets a stalled write has taken (stalled and short writes themselves are covered: a second request arriving while the first is half written), more than 65535/2 outstanding requests, real sockets/TLS. demux_reply restarts the response timer for every message, also for unknown IDs: bounded in the model (MaxFrames); see report. D_stream_response_timeout_ignored (the configured response timeout was never in force for ordinary requests) is fixed in the tree; the deviation model stays as documentation. Configuration: a response timeout that is a whole number of ticks is avoided (at elapsed = timeout exactly the run loop sleeps for zero time until the clock moves, which the frozen clock never does); not bound to a running transport: slow_rt_factor (getter only), the upper end of burst_interval (361 ticks; getter only), recv_size beyond the buffer offered (what a longer datagram then looks like is not judged).",
+    "technique": "TLA+ specs (ClientStream.tla, ClientDgram.tla, ClientDgramPar.tla, ClientCompose.tla, ClientConfig.tla) + TLC exhaustive (safety, liveness); spec->impl behaviour replay on a virtual clock; impl->spec trace validation",
     "design_ref": "DESIGN.md §4 C15",
 }
 
@@ -148,6 +149,290 @@ def _compose(ctx, thorough):
         ctx.replay_cases("replay_client", cases, label="compose-" + mode)
 
 
+# ---------------------------------------------------------------------------
+# the configuration layer (ClientConfig.tla): every public setter of the
+# client transports, values at / inside / outside both ends of its documented
+# range, honoured by the running transport
+
+# setter -> (getter field, how its values must be spread among the generated
+# inputs: "both" a documented range with something below and above it;
+# "above" a range whose lower end is the type's (0); "below" a lower limit
+# only; "plain" no range: what is set is what is in force)
+SETTERS = {
+    "set_max_parallel": ("mp", "both"), "set_read_timeout": ("rto", "both"),
+    "set_max_retries": ("mr", "above"), "set_udp_payload_size": ("ups", "plain"),
+    "set_recv_size": ("rsz", "plain"), "set_response_timeout": ("rt", "both"),
+    "set_streaming_response_timeout": ("srt", "both"), "set_idle_timeout": ("idle", "above"),
+    "set_max_burst": ("mb", "plain"), "set_burst_interval": ("iv", "both"),
+    "set_slow_rt_factor": ("srf", "below"), "set_defer_transport_error": ("de", "flag"),
+    "set_defer_refused": ("dr", "flag"), "set_defer_servfail": ("ds", "flag"),
+}
+CONFIG_ACTIONS = ["SetMaxParallel", "SetReadTimeout", "SetMaxRetries", "SetUdpPayloadSize", "SetRecvSize",
+                  "SetResponseTimeout", "SetStreamingResponseTimeout", "SetIdleTimeout", "SetMaxBurst",
+                  "SetBurstInterval", "SetDeferFlag", "SetSlowRtFactor"]
+
+
+def _part(obj, path):
+    for k in path:
+        obj = obj[k]
+    return obj
+
+
+def _scripts_of(inp, eff):
+    """The parts of a case's configuration script with what the specification
+    says their getters return: [(prefix, calls, eff of that part)]."""
+    kind = inp["kind"]
+    conf = inp["cfg"]["conf"]
+    if kind in ("dgram", "dgpar", "stream"):
+        return [("", conf["calls"], eff)]
+    if kind == "multi":
+        return [("", conf["calls"], eff), ("st.", conf["st"]["calls"], eff["st"])]
+    if kind == "dgst":
+        return [("dg.", conf["dg"]["calls"], eff["dg"]), ("ms.", conf["ms"]["calls"], eff["ms"]),
+                ("ms.st.", conf["ms"]["st"]["calls"], eff["ms"]["st"])]
+    return []
+
+
+# Gen_ClientConfig: the accessor a call is made through -> the part of the object
+AT_PATH = {("ms", "stream_mut"): ["st"], ("x", "dgram_mut"): ["dg"], ("x", "stream_mut"): ["ms"],
+           ("x", "stream_mut.stream_mut"): ["ms", "st"]}
+
+
+def _asked_vs_effective(path):
+    """Walk a generated case file: for every setter (prefixed by the part of a
+    composite object it is called on) the pairs (value asked for last, value
+    the specification says is then in force)."""
+    seen = {}
+    for line in open(path):
+        c = json.loads(line)
+        inp, exp = c["in"], c["exp"]
+        if inp["kind"] == "config":
+            for k, e in zip(inp["calls"], exp):
+                at = AT_PATH.get((inp["obj"], k["at"]), [])
+                part = _part(e, at)
+                key = "".join(a + "." for a in at) + k["f"]
+                seen.setdefault(key, set()).add((k["v"], _flag(part[SETTERS[k["f"]][0]])))
+            continue
+        for prefix, calls, part in _scripts_of(inp, exp[0]["eff"]):
+            last = {}
+            for k in calls:
+                last[k["f"]] = k["v"]
+                if k["f"] == "set_response_timeout":
+                    # it sets the streaming timeout as well: an earlier call for that is void
+                    last.pop("set_streaming_response_timeout", None)
+            for f, v in last.items():
+                seen.setdefault(prefix + f, set()).add((v, _flag(part[SETTERS[f][0]])))
+    return seen
+
+
+def _flag(v):
+    return int(v) if isinstance(v, bool) else v
+
+
+def _spread(pairs, how):
+    """Which classes of values the generated inputs hold for one setter."""
+    cls = set()
+    up = {e for v, e in pairs if e > v}      # below the range: capped to its lower end
+    down = {e for v, e in pairs if e < v}    # above the range: capped to its upper end
+    taken = {v for v, e in pairs if e == v}
+    if how in ("plain", "flag"):
+        if not up and not down:
+            cls.add("as_set:%d" % len(taken))
+        return cls
+    lo = min(up) if up else (0 if how == "above" else None)
+    hi = max(down) if down else None
+    if up:
+        cls.add("below")
+    if down:
+        cls.add("above")
+    if lo is not None and lo in taken:
+        cls.add("at_min")
+    if hi is not None and hi in taken:
+        cls.add("at_max")
+    if any((lo is None or v > lo) and (hi is None or v < hi) for v in taken):
+        cls.add("inside")
+    return cls
+
+
+NEED = {"both": {"below", "at_min", "inside", "at_max", "above"},
+        "above": {"at_min", "inside", "at_max", "above"},
+        "below": {"below", "at_min", "inside"}}
+
+
+def _require_spread(ctx, what, paths, setters, partial=None):
+    """Vacuity guard keyed on the generated inputs: every named setter occurs
+    with values below / at / inside / at / above its range (as far as it has
+    one), judged by the specification's own expectation of what is in force."""
+    seen = {}
+    for p in paths:
+        for f, pairs in _asked_vs_effective(p).items():
+            seen.setdefault(f, set()).update(pairs)
+    report = {}
+    for f in setters:
+        how = SETTERS[f.split(".")[-1]][1]
+        cls = _spread(seen.get(f, set()), how)
+        report[f] = sorted(cls)
+        if how in ("plain", "flag"):
+            n = max([int(c.split(":")[1]) for c in cls] + [0])
+            if n < (2 if how == "flag" else 3):
+                raise vlib.ToolError("vacuity (%s): %s occurs with %d values only" % (what, f, n))
+            continue
+        need = (partial or {}).get(f) or NEED[how]
+        if not need <= cls:
+            raise vlib.ToolError("vacuity (%s): %s lacks values %s" % (what, f, sorted(need - cls)))
+    ctx.config_classes[what] = report
+
+
+def _gen_replay(ctx, module, cfg, label, least, workers=1, selftest=None):
+    cases = os.path.join(ctx.work, label + ".ndjson")
+    gen = ctx.tlc(module, cfg, workers=workers, label="mc+gen-" + label, coverage=False, cases_to=cases,
+                  timeout=3000)
+    ctx.require_ok(gen, cfg)
+    if gen.ncases < least:
+        raise vlib.ToolError("%s generator produced too few cases: %d" % (label, gen.ncases))
+    if selftest:
+        selftest(ctx, cases, label)
+    ctx.replay_cases("replay_client", cases, label=label)
+    return cases
+
+
+def _selftest_script(ctx, cases, label):
+    """Binding self-test: the same expectation under a configuration script
+    that asks for another budget must be reported by the executor."""
+    bad = os.path.join(ctx.work, label + "-bad.ndjson")
+    n = 0
+    with open(bad, "w") as g:
+        for line in open(cases):
+            c = json.loads(line)
+            calls = c["in"]["cfg"]["conf"].get("calls", [])
+            ks = [k for k in calls if k["f"] == "set_max_retries"]
+            ks = ks if len(ks) == 1 and ks[0]["v"] == 0 else []
+            # a request that was not answered: the retry budget shows
+            if ks and c["exp"][-1]["done"] and "err" in c["exp"][-1]["done"][0] and c["exp"][-1]["t"] > 0:
+                for k in ks:
+                    k["v"] = 1
+                g.write(json.dumps(c) + "\n")
+                n += 1
+                if n >= 5:
+                    break
+    if n == 0:
+        raise vlib.ToolError("no case with set_max_retries(0) and a lost answer among the %s cases" % label)
+    rc, out, err, _ = ctx.run_bin("replay_client", ["--open-devs", ""], stdin_path=bad)
+    ctx.selftest("a configuration script asking for another retry budget is reported by replay_client (%s)"
+                 % label, out.count("FAIL ") == n)
+
+
+def _config(ctx, thorough):
+    ctx.config_classes = {}
+    # (1) the configuration objects on their own: TLC checks the operational
+    # definitions against the declarative reading, every behaviour of two
+    # calls is a case (getters after every call)
+    cfgcases = os.path.join(ctx.work, "config-cases.ndjson")
+    gen = ctx.tlc("Gen_ClientConfig", "Gen_ClientConfig", workers=4, label="mc+gen-config",
+                  cases_to=cfgcases, coverage=thorough)
+    ctx.require_ok(gen, "Gen_ClientConfig")
+    if thorough:
+        ctx.require_actions(gen, CONFIG_ACTIONS)
+    # (quick tier: the guard below, keyed on the generated calls, subsumes it)
+    if gen.ncases < 5000:
+        raise vlib.ToolError("config generator produced too few cases: %d" % gen.ncases)
+    st = ["set_response_timeout", "set_streaming_response_timeout", "set_idle_timeout"]
+    dg = ["set_max_parallel", "set_read_timeout", "set_max_retries", "set_udp_payload_size", "set_recv_size"]
+    _require_spread(ctx, "objects", [cfgcases],
+                    list(SETTERS) + ["st." + f for f in st] + ["ms.st." + f for f in st]
+                    + ["dg." + f for f in dg] + ["ms.set_response_timeout"])
+    head = os.path.join(ctx.work, "config-head.ndjson")
+    _head(cfgcases, head, 40)
+    rc, out, err, _ = ctx.run_bin("replay_client", ["--selftest-perturb"], stdin_path=head)
+    ctx.selftest("perturbed getter expectation is reported by replay_client (config)", "FAIL " in out)
+    ctx.replay_cases("replay_client", cfgcases, label="config")
+
+    # (2) dgram: one request, nothing ever arrives; the budget, the OPT
+    # record and the receive buffer are the configured ones
+    loss = _gen_replay(ctx, "Gen_ClientDgram", "Gen_ClientDgram_loss", "dgram-loss", 50,
+                       selftest=_selftest_script)
+    _require_spread(ctx, "dgram", [loss], ["set_max_parallel", "set_read_timeout", "set_max_retries",
+                                           "set_udp_payload_size", "set_recv_size"])
+    sent = set()
+    for line in open(loss):
+        c = json.loads(line)
+        last = c["exp"][-1]
+        if last["done"] and "err" in last["done"][0]:
+            sent.add((len(last["sent"]), last["t"]))
+    if not {(1, 1), (2, 2)} <= sent or max(n for n, _ in sent) < 101 or len({t for _, t in sent}) < 6:
+        raise vlib.ToolError("vacuity: dgram loss cases do not spread over the budgets: %s" % sorted(sent)[:20])
+
+    # (3) dgram: max_parallel - bursts of requests on one connection
+    mc = ctx.tlc("MC_ClientDgramPar", "MC_ClientDgramPar", workers=4, label="mc-dgram-par")
+    ctx.require_ok(mc, "MC_ClientDgramPar")
+    ctx.require_actions(mc, ["SubmitBurst", "PTick"])
+    par = _gen_replay(ctx, "Gen_ClientDgramPar", "Gen_ClientDgramPar" + ("_thorough" if thorough else ""),
+                      "dgram-par", 500)
+    _require_spread(ctx, "dgram-par", [par], ["set_max_parallel"])
+    held = 0
+    for line in open(par):
+        last = json.loads(line)["exp"][-1]
+        if last["open"] == last["eff"]["mp"] and last["nsock"] >= last["open"] + 2:
+            held += 1
+    if held < 50:
+        raise vlib.ToolError("vacuity: only %d max_parallel cases have requests waiting for a permit" % held)
+
+    # (4) stream: the three timeouts; lower ends / defaults / routes on 10 s
+    # ticks, the upper ends on longer ticks
+    st = [_gen_replay(ctx, "Gen_ClientStream", "Gen_ClientStream_" + c, "stream-" + c, least)
+          for c, least in (("conf", 1500), ("confhi", 1500), ("confidle", 400))]
+    _require_spread(ctx, "stream", st, ["set_response_timeout", "set_streaming_response_timeout",
+                                        "set_idle_timeout"])
+    # the timeouts must be seen to run out, at different times
+    closed_at = set()
+    for p in st:
+        for line in open(p):
+            c = json.loads(line)
+            ops = [o["op"] for o in c["in"]["ops"]]
+            if ops and ops[-1] == "tick" and c["exp"][-1]["closed"] and (len(ops) < 2 or not c["exp"][-2]["closed"]):
+                closed_at.add((c["in"]["cfg"]["tickms"], ops.count("tick"), bool(c["exp"][-1]["done"][0])
+                               and "err" in c["exp"][-1]["done"][0][-1]))
+    if len(closed_at) < 8 or len({t for t, _, _ in closed_at}) < 3:
+        raise vlib.ToolError("vacuity: stream timeouts run out in too few ways: %s" % sorted(closed_at))
+
+    # (5) multi_stream / dgram_stream: the answer never comes; completion
+    # no later than the configured budgets, by every route
+    ml = _gen_replay(ctx, "Gen_ClientCompose", "Gen_ClientCompose_multi_loss", "compose-multi-loss", 100)
+    _require_spread(ctx, "multi_stream", [ml], ["set_response_timeout"])
+    xl = _gen_replay(ctx, "Gen_ClientCompose", "Gen_ClientCompose_dgst_loss", "compose-dgst-loss", 300)
+    _require_spread(ctx, "dgram_stream", [xl],
+                    ["dg.set_read_timeout", "dg.set_max_retries", "ms.set_response_timeout"],
+                    partial={"dg.set_read_timeout": {"inside", "above"},
+                             "dg.set_max_retries": {"at_min", "inside"},
+                             "ms.set_response_timeout": {"inside"}})
+    # the stream connections multi_stream / dgram_stream make run under the
+    # stream::Config part: requests are answered and the connection is left
+    # idle (two requests, time passes in between), or never answered
+    mi = _gen_replay(ctx, "Gen_ClientCompose", "Gen_ClientCompose_multi_idle", "compose-multi-idle", 1000)
+    _require_spread(ctx, "multi_stream.stream", [ml, mi], ["st.set_response_timeout", "st.set_idle_timeout"],
+                    partial={"st.set_response_timeout": {"below", "inside"}})
+    _require_spread(ctx, "dgram_stream.stream", [xl], ["ms.st.set_response_timeout"],
+                    partial={"ms.st.set_response_timeout": {"inside"}})
+    reconnects = {}
+    for name, p in (("multi-loss", ml), ("multi-idle", mi), ("dgst-loss", xl)):
+        for line in open(p):
+            c = json.loads(line)
+            ops = [o["op"] for o in c["in"]["ops"]]
+            if "close" not in ops and "conn_fail" not in ops:
+                # the peer never closes: a second connection is the stream timers' doing
+                reconnects.setdefault(name, set()).add(c["exp"][-1]["nconnect"])
+    for name in ("multi-loss", "multi-idle", "dgst-loss"):
+        if not {1, 2} <= reconnects.get(name, set()):
+            raise vlib.ToolError("vacuity: %s cases never see a stream connection time out: %s"
+                                 % (name, sorted(reconnects.get(name, []))))
+    routes = set()
+    for p in (ml, xl):
+        for line in open(p):
+            routes.add(json.loads(line)["in"]["cfg"]["conf"]["route"])
+    if not {"from", "default", "conn_new", "from_parts", "new_mut", "new_set"} <= routes:
+        raise vlib.ToolError("vacuity: routes missing among the composite configurations: %s" % sorted(routes))
+
+
 BALANCE_ACTIONS = ["RequestSubmit", "UpstreamAsked", "UpstreamResult", "RequestDone", "ClockTick"]
 
 
@@ -195,6 +480,26 @@ def _balance(ctx, thorough):
             ok2, _, _ = ctx.validate_trace("Trace_ClientBalance", "Trace_ClientBalance", bad,
                                            label="balance-trace-selftest")
             ctx.selftest("corrupted balancer trace is rejected by Trace_ClientBalance", not ok2)
+            if thorough:
+                # an upstream whose ConnConfig getters say something else than
+                # the script leaves in force
+                bad2 = os.path.join(ctx.work, "balance-bad-cc.ndjson")
+                lines = open(tr).read().splitlines()
+                hit = False
+                for j, l in enumerate(lines):
+                    o = json.loads(l)
+                    if o.get("ev") == "add" and any(k["f"] == "set_burst_interval" for k in o["calls"]):
+                        o["eff"]["iv"] += 1
+                        lines[j] = json.dumps(o)
+                        hit = True
+                        break
+                if not hit:
+                    raise vlib.ToolError("no upstream with a configured burst interval in the recorded run")
+                open(bad2, "w").write("\n".join(lines) + "\n")
+                ok4, _, _ = ctx.validate_trace("Trace_ClientBalance", "Trace_ClientBalance", bad2,
+                                               label="balance-trace-selftest-cc")
+                ctx.selftest("a ConnConfig whose getters disagree with its script is rejected by Trace_ClientBalance",
+                             not ok4)
 
 
 def _validate(ctx, path, label):
@@ -259,8 +564,10 @@ def run(ctx):
     _dgram_model(ctx, thorough)
     _replay(ctx, thorough)
     _compose(ctx, thorough)
+    _config(ctx, thorough)
     _balance(ctx, thorough)
     _traces(ctx, thorough)
+    ctx.extra = {"config_setters_value_classes": ctx.config_classes}
     ctx.assume("the peer's messages come from a finite alphabet (per ID and question: answer, error with question, header-only with/without error code, error with empty question but records, query, answer with edns-tcp-keepalive); a message shorter than a header, EOF between and inside frames, and a peer that stops reading end the stream")
     ctx.assume("time is a tick counter; one tick = 10 s of virtual time in the harness; the code's `elapsed > response_timeout` is decided on whole ticks by configuring RT ticks minus half a tick")
     ctx.assume("std::time::Instant (used by net::client::stream) is driven by interposing clock_gettime(CLOCK_MONOTONIC) in the harness executables, in lock step with tokio's paused clock")
